@@ -234,3 +234,20 @@ add("C14",
     shards={"quick": 16, "thorough": 16},
     require_counts=["held", "hostile_name_cases"],
     )
+
+add("C20",
+    bin="mcb",
+    pin=False,
+    rayon_threads=0,
+    engine="SEQ",
+    level="model_checking",
+    technique="explicit-state BFS over backend operation sequences on real directories against a map reference model, with a crash image at the publish point",
+    design_ref="DESIGN.md §4.1, §5 C20",
+    level_text="Breadth-first search (depth 3 quick / 4 thorough over config, snapshot and pack files; depth 2 over all five file types) over write/remove with three ids (two sharing a data/xx directory) and contents of 0 B, 4097 B (thorough: 1 B, 3 MiB) "
+               "on the real LocalBackend, OpenDAL(fs) and OpenDAL(memory). Every transition replays its history on a fresh backend; afterwards every list, list_with_size, read_full of every id and read_partial for all (offset,length) over {0,1,mid,len-1,len,4095,4096}^2 in range "
+               "must equal the map model, with and without stray entries planted beforehand (non-hex names, 63/65-char hex, upper-case hex, `<id>-tmp-` files, a directory named like an id, foreign directories). "
+               "At LocalBackend's pre-publish hook the directory is copied; a backend opened on the copy must show exactly the pre-write map (no partial file listed, target unchanged or absent).",
+    level_note="Removing an absent file is not judged (the statement does not specify it). A crash is modelled at the one point between writing the temporary file and the rename; torn writes inside the temporary file are invisible to listings by construction. OpenDAL retries are switched off in the harness.",
+    shards={"quick": 16, "thorough": 16},
+    require_counts=["crash_images", "executions:Local+strays", "executions:OpendalMemory", "single_stray_cases"],
+    )
